@@ -20,11 +20,12 @@ const ownerProv = 900
 type instKey struct{ rid, inv, out int }
 
 type provRec struct {
-	p          godi.Provider
-	scopes     []godi.Scope // index = handle; [0] is nil (the provider / root scope)
-	scopeCtx   []int        // explicit context each scope derives from
-	idToHandle map[string]int
-	newScopes  int // number of scopes the provider has numbered so far (root scope = 1)
+	p           godi.Provider
+	scopes      []godi.Scope // index = handle; [0] is nil (the provider / root scope)
+	scopeCtx    []int        // explicit context each scope derives from
+	scopeParent []int        // parent handle of each scope (0: created from the provider)
+	idToHandle  map[string]int
+	newScopes   int // number of scopes the provider has numbered so far (root scope = 1)
 }
 
 type ctxRec struct {
@@ -39,21 +40,24 @@ type otherKey struct{}
 type PanicVal struct{ Rid int }
 
 type Run struct {
-	mu      sync.Mutex
-	coll    godi.Collection
-	provs   []*provRec
-	cur     *provRec
-	curH    int
-	invs    map[int]int
-	regs    map[int]*Reg
-	svc     map[int]any
-	regErr  map[int]error
-	owner   map[instKey]int
-	events  []Event
-	ctxs    map[int]*ctxRec
-	notes   []string
+	mu          sync.Mutex
+	coll        godi.Collection
+	provs       []*provRec
+	cur         *provRec
+	curH        int
+	invs        map[int]int
+	regs        map[int]*Reg
+	svc         map[int]any
+	regErr      map[int]error
+	owner       map[instKey]int
+	events      []Event
+	ctxs        map[int]*ctxRec
+	notes       []string
 	buildCancel context.CancelFunc
 	slowClose   bool
+	slowFor     time.Duration // how long a slow Close body stays inside Close
+	inClose     map[int]int   // owner -> Close bodies in progress (owners are scope handles of the provider in use, or ownerProv)
+	closeProv   *provRec      // the provider whose scopes the owners refer to
 	sharedMods  map[int][]godi.ModuleOption
 }
 
@@ -61,13 +65,15 @@ var theRun *Run
 
 func newRun() *Run {
 	r := &Run{
-		coll:   godi.NewCollection(),
-		invs:   map[int]int{},
-		regs:   map[int]*Reg{},
-		svc:    map[int]any{},
-		regErr: map[int]error{},
-		owner:  map[instKey]int{},
-		ctxs:   map[int]*ctxRec{},
+		coll:    godi.NewCollection(),
+		invs:    map[int]int{},
+		regs:    map[int]*Reg{},
+		svc:     map[int]any{},
+		regErr:  map[int]error{},
+		owner:   map[instKey]int{},
+		ctxs:    map[int]*ctxRec{},
+		inClose: map[int]int{},
+		slowFor: 150 * time.Microsecond,
 	}
 	theRun = r
 	return r
@@ -106,16 +112,54 @@ func (r *Run) onClose(o *Obj) error {
 	if !ok {
 		own = 7007
 	}
+	// C11: no owner disposes one of its own instances while a descendant scope (for the provider: any scope) is
+	// still inside a Close body; the offending event is marked by an impossible owner
+	if r.overlapsDescendant(own) {
+		own = 7008
+	}
 	r.events = append(r.events, Event{Kind: "closed", Inst: &in, Ok: !fail, Owner: own})
 	if r.slowClose {
+		key := own
+		r.inClose[key]++
 		r.mu.Unlock()
-		time.Sleep(150 * time.Microsecond)
+		time.Sleep(r.slowFor)
 		r.mu.Lock()
+		r.inClose[key]--
 	}
 	if fail {
 		return fmt.Errorf("scripted close error of %d/%d/%d", o.Rid, o.Inv, o.Out)
 	}
 	return nil
+}
+
+// overlapsDescendant: is a Close body of a scope below owner still in progress? (called with r.mu held)
+func (r *Run) overlapsDescendant(owner int) bool {
+	pr := r.closeProv
+	for h, n := range r.inClose {
+		if n <= 0 || h == owner || h >= 7000 {
+			continue
+		}
+		if owner == ownerProv {
+			if h != ownerProv {
+				return true
+			}
+			continue
+		}
+		if pr == nil || h == ownerProv {
+			continue
+		}
+		// is h a proper descendant of owner?
+		for k := h; k > 0 && k < len(pr.scopeParent); {
+			k = pr.scopeParent[k]
+			if k == owner {
+				return true
+			}
+			if k == 0 {
+				break
+			}
+		}
+	}
+	return false
 }
 
 // ---------------------------------------------------------------- services
@@ -536,6 +580,9 @@ func (r *Run) moduleOption(m Module) godi.ModuleOption {
 			return godi.AddTransient(s, opts...)
 		}
 	case "remove":
+		if o := removeOption(m.Ty); o != nil {
+			return o
+		}
 		t := goType(m.Ty)
 		return func(c godi.Collection) error { c.Remove(t); return nil }
 	case "removekeyed":
@@ -543,6 +590,9 @@ func (r *Run) moduleOption(m Module) godi.ModuleOption {
 		var k any
 		if m.Name != 0 {
 			k = nameStr(m.Name)
+		}
+		if o := removeKeyedOption(m.Ty, k); o != nil {
+			return o
 		}
 		return func(c godi.Collection) error { c.RemoveKeyed(t, k); return nil }
 	case "module":
@@ -857,7 +907,7 @@ func (r *Run) exec(op *Op) (res Result) {
 		}
 		return Result{Kind: "descs", Descs: ds}
 	case "build":
-		pr := &provRec{scopes: []godi.Scope{nil}, scopeCtx: []int{0}, idToHandle: map[string]int{"s1": 0}, newScopes: 1}
+		pr := &provRec{scopes: []godi.Scope{nil}, scopeCtx: []int{0}, scopeParent: []int{0}, idToHandle: map[string]int{"s1": 0}, newScopes: 1}
 		r.cur, r.curH = pr, 0
 		start := len(r.events)
 		bctx, bcancel := context.WithCancel(context.Background())
@@ -937,6 +987,7 @@ func (r *Run) exec(op *Op) (res Result) {
 		}
 		pr.scopes = append(pr.scopes, sc)
 		pr.scopeCtx = append(pr.scopeCtx, cx)
+		pr.scopeParent = append(pr.scopeParent, op.Parent)
 		return Result{Kind: "scope", H: h}
 	case "resolve":
 		pr := r.prov(op.P)
@@ -1083,11 +1134,28 @@ func (r *Run) exec(op *Op) (res Result) {
 func runCase(c *Case) {
 	r := newRun()
 	r.slowClose = c.SlowClose
+	for i := range c.Ops {
+		if c.Ops[i].NoWait {
+			r.slowFor = 3 * time.Millisecond // wide enough for the next operation to start inside it
+		}
+	}
 	flatFailed := false
+	skip := -1
 	kept := c.Ops[:0:0]
 	for i := range c.Ops {
 		if c.Ops[i].Flat && flatFailed {
 			continue // module processing stops at the first failing entry; so does the flat twin
+		}
+		if c.Ops[i].Kind == "cancel" && c.Ops[i].NoWait && i+1 < len(c.Ops) && (c.Ops[i+1].Kind == "closeprovider" || c.Ops[i+1].Kind == "close") {
+			if steps, ok := r.cancelThenClose(&c.Ops[i], &c.Ops[i+1]); ok {
+				kept = append(kept, c.Ops[i], c.Ops[i+1])
+				c.Trace = append(c.Trace, steps...)
+				skip = i + 1
+				continue
+			}
+		}
+		if i == skip {
+			continue
 		}
 		start := len(r.events)
 		res := r.exec(&c.Ops[i])
@@ -1114,4 +1182,72 @@ func runCase(c *Case) {
 	if len(r.notes) > 0 {
 		c.Note = strings.Join(r.notes, "; ")
 	}
+}
+
+// cancelThenClose: cancel a context and, while its watcher goroutines are closing their scopes, start the Close of an
+// ancestor or of the provider. Both operations become one step each, as in the sequential order; the Closed events
+// are attributed by owner: scopes below the cancelled context belong to the cancellation (the model closes them there).
+func (r *Run) cancelThenClose(cancel, next *Op) ([]Step, bool) {
+	rec := r.ctxs[cancel.Ctx]
+	pr := r.prov(next.P)
+	if rec == nil || pr == nil {
+		return nil, false
+	}
+	if next.Kind == "close" && (next.H <= 0 || next.H >= len(pr.scopes) || pr.scopes[next.H] == nil) {
+		return nil, false
+	}
+	r.mu.Lock()
+	start := len(r.events)
+	r.closeProv = pr
+	r.mu.Unlock()
+	// scopes closed by the cancellation: those deriving from the context, and everything below them
+	inSet := make([]bool, len(pr.scopes))
+	for h := 1; h < len(pr.scopes); h++ {
+		if pr.scopeCtx[h] == cancel.Ctx || (pr.scopeParent[h] > 0 && pr.scopeParent[h] < h && inSet[pr.scopeParent[h]]) {
+			inSet[h] = true
+		}
+	}
+	rec.cancel()
+	// let a watcher get inside a Close body (if it has anything to close) before the owner's Close starts
+	deadline := time.Now().Add(20 * time.Millisecond)
+	for time.Now().Before(deadline) {
+		r.mu.Lock()
+		busy := false
+		for h, n := range r.inClose {
+			if n > 0 && h < 7000 {
+				busy = true
+			}
+		}
+		r.mu.Unlock()
+		if busy {
+			break
+		}
+		time.Sleep(50 * time.Microsecond)
+	}
+	res := r.exec(next)
+	// now wait for the watchers, as the plain cancel does
+	limit := time.Now().Add(3 * time.Second)
+	for h, sc := range pr.scopes {
+		if sc == nil || !inSet[h] {
+			continue
+		}
+		for godi.VerifCacheLen(sc) != -1 && time.Now().Before(limit) {
+			time.Sleep(200 * time.Microsecond)
+		}
+	}
+	r.mu.Lock()
+	all := append([]Event(nil), r.events[start:]...)
+	r.closeProv = nil
+	r.mu.Unlock()
+	var evCancel, evNext []Event
+	for _, e := range all {
+		if e.Kind == "closed" && e.Owner > 0 && e.Owner < len(inSet) && inSet[e.Owner] {
+			evCancel = append(evCancel, e)
+		} else {
+			evNext = append(evNext, e)
+		}
+	}
+	cancel.Ord = r.closeOrder(evCancel)
+	next.Ord = r.closeOrder(evNext)
+	return []Step{{Events: evCancel, Result: Result{Kind: "unit"}}, {Events: evNext, Result: res}}, true
 }
